@@ -90,10 +90,25 @@ def post(run, cases, impl, model):
     big = sorted(set(("k%05d" % i).encode() + b"x" * (i % 7) for i in range(9000)))
     corpus = [("capwitness", W, "PFC", ["2"]), ("capcontrol", W[:-1], "PFC", ["2"]), ("capwitness3", W, "PFC", ["3"]),
               ("big-pfc", big, "PFC", ["2"]), ("big-rpfc", big[:3000], "RPFC", ["2"]), ("big-rpdac", big[:3000], "RPDAC", [])]
+    # uniformly short strings in large buckets: almost every internal string costs maxlength+1 or +2 ints of the Re-Pair input
+    # buffer (rpdict), whose growth check is per bucket
+    two = sorted(("%02d" % i).encode() for i in range(100))
+    az = sorted(bytes([a, b2]) for a in range(97, 123) for b2 in range(97, 123))
+    three = sorted(("%03d" % i).encode() for i in range(1000))
+    import random as _r
+    lr = _r.Random(12345)
+    long3k = sorted(set(bytes(lr.randrange(2, 255) for _ in range(2600)) for _ in range(24)))
+    for kind in ("RPFC", "RPHTFC"):
+        corpus += [("short2-b60-" + kind, two, kind, ["60"]), ("shortaz-b60-" + kind, az, kind, ["60"]), ("shortaz-b100-" + kind, az, kind, ["100"]),
+                   ("short3-b130-" + kind, three, kind, ["130"]), ("short3-b400-" + kind, three, kind, ["400"])]
+    # strings far longer than any fixed per-string budget of the compressed text (every kind with a growable text)
+    for kind in D.FC_KINDS + ["HASHHF", "HASHUFFDAC", "HASHRPF"]:
+        corpus.append(("long2600-" + kind, long3k, kind, ["2"] if kind in D.FC_KINDS else ["10"]))
     cs = []
     for name, S, kind, params in corpus:
-        cmds = D.build_cmds(S, kind, params) + ["save d i", "load r i generic 1", "q r numElements", "q r extract %d" % len(S),
-                                                "q r locate %s" % D.hx(S[-1]), "q r extract 1", "free d", "free r"]
+        allids = ["q r extract %d" % i for i in range(1, len(S) + 1)] if kind in D.HASH_KINDS else []   # permuted IDs: complete table
+        cmds = D.build_cmds(S, kind, params) + ["save d i", "load r i generic 1", "q r numElements"] + allids + \
+            ["q r extract %d" % len(S), "q r locate %s" % D.hx(S[-1]), "q r extract 1", "free d", "free r"]
         cs.append(Case("C07-corpus-" + name, cmds, {"kind": kind, "S": S, "params": params, "shape": "corpus", "phases": {"r": "reloaded"}}))
     out = vlib.run_cases(exe, cs, tag="impl-corpus", timeout_case=240)
     # (3) growth corpus with the SHRUNK reservation: single strings many times longer than the current buffer (several doublings
@@ -134,7 +149,8 @@ CFG = DC.Config("C07", D.ALL_KINDS, make_cmds, nsets=(7, 18), big=True, extra_ev
                      "substrings, ranks, table scans), save, load through both loaders, an in-process history and destruction of every "
                      "object, all under AddressSanitizer: any report, fatal signal or time-out is a failing input. Corpus with the default "
                      "reservation: the 13124-string capacity witness derived from the Coq refutation of the old growth check, its controls, "
-                     "and 9000-string sets that force real reallocations. Non-trivial = a command; distinct by (kind, params, S, command).")
+                     "9000-string sets that force real reallocations, uniformly short strings in buckets of 60..400 (Re-Pair input buffer of "
+                     "RPFC/RPHTFC) and 2600-byte random strings (per-bucket budget of the compressed text). Non-trivial = a command; distinct by (kind, params, S, command).")
 CFG.extra_defs = ("-DLIBCSD_VERIF_MEMALLOC=16",)
 
 CFG.fm_text_residues = [31, 0, 1, 30, 63 % 32, 15, 31]
